@@ -59,10 +59,12 @@ package v1
 
 // JSON (un)marshalling of the two identifier types: numeric ids, nothing else accepted (C07: never panics).
 
+// README Manifest: "kw" / "cph" are JSON numbers, the identifiers of the tables above (0x01..0x05, 0x01..0x02): one decimal digit.
 //@ func (KeyAlgorithm).MarshalJSON
 //@   tags C01 C07 C08
 //@   modifies nothing
 //@   ensures result1 == nil
+//@   ensures [C01.ka.json.bytes] kaCanon(kaResolve(a)) ==> (len(result) == 1 && result[0] == '0' + kaID(kaResolve(a)))
 
 //@ func (*KeyAlgorithm).UnmarshalJSON
 //@   tags C01 C07 C08
@@ -70,11 +72,16 @@ package v1
 //@   modifies *a
 //@   ensures [C01.ka.json.value] result == nil ==> (kaCanon(*a) && 1 <= kaID(*a) && kaID(*a) <= 5)
 //@   ensures [C01.ka.json.reject] result != nil ==> *a == old(*a)
+// the value stored is the algorithm whose README identifier is the number written in the input (the input text itself, not a re-encoding)
+//@   at before call Atoi#0 assert [C01.ka.json.input] len(arg0) == len(dataB) && (forall i :: 0 <= i && i < len(dataB) ==> arg0[i] == dataB[i])
+//@   ensures [C01.ka.json.digit] (len(dataB) == 1 && '1' <= dataB[0] && dataB[0] <= '5') ==> (result == nil && kaID(*a) == dataB[0] - '0')
+//@   at return assert [C01.ka.json.decode] result == nil ==> (atoiOK(data) && kaID(*a) == atoiVal(data) && *a == kaName(atoiVal(data)))
 
 //@ func (Cipher).MarshalJSON
 //@   tags C01 C07 C08
 //@   modifies nothing
 //@   ensures result1 == nil
+//@   ensures [C01.cph.json.bytes] cphID(c) != 0 ==> (len(result) == 1 && result[0] == '0' + cphID(c))
 
 //@ func (*Cipher).UnmarshalJSON
 //@   tags C01 C07 C08
@@ -82,6 +89,9 @@ package v1
 //@   modifies *c
 //@   ensures [C01.cph.json.value] result == nil ==> (*c == "AES-GCM" || *c == "CHACHA20-POLY1305")
 //@   ensures [C01.cph.json.reject] result != nil ==> *c == old(*c)
+//@   at before call Atoi#0 assert [C01.cph.json.input] len(arg0) == len(dataB) && (forall i :: 0 <= i && i < len(dataB) ==> arg0[i] == dataB[i])
+//@   ensures [C01.cph.json.digit] (len(dataB) == 1 && '1' <= dataB[0] && dataB[0] <= '2') ==> (result == nil && cphID(*c) == dataB[0] - '0')
+//@   at return assert [C01.cph.json.decode] result == nil ==> (atoiOK(data) && cphID(*c) == atoiVal(data) && *c == cphName(atoiVal(data)))
 
 // ---- Manifest.Validate -----------------------------------------------------------------------------------------
 
@@ -96,31 +106,33 @@ package v1
 
 // ---- filekey.go ------------------------------------------------------------------------------------------------
 
-// C01 (b) README "Each segment is encrypted using a different 12-byte nonce: nonce_prefix (7 bytes) || i (4 bytes,
+// C01 (b) + C02 (a segment is bound to its position and to being the last one) README "Each segment is encrypted using a different 12-byte nonce: nonce_prefix (7 bytes) || i (4 bytes,
 // 32-bit unsigned big-endian) || last_segment (1 byte, 0x01 for the last segment, 0x00 otherwise)".
 // The big-endian digits are stated as the linear identity with 0 <= digit < 256 (unique representation).
 //@ func (fileKey).nonceForSegment
-//@   tags C01 C07 C08
+//@   tags C01 C02 C07 C08
 //@   requires 0 <= num && num <= 4294967295
 //@   modifies nothing
 //@   ensures [C01.nonce.len] len(result) == 12 && fresh(result)
 //@   ensures [C01.nonce.prefix] forall i :: 0 <= i && i < 7 && i < len(k.noncePrefix) ==> result[i] == k.noncePrefix[i]
-//@   ensures [C01.nonce.counter] 0 <= result[7] && result[7] < 256 && 0 <= result[8] && result[8] < 256 && 0 <= result[9] && result[9] < 256 && 0 <= result[10] && result[10] < 256
+//@   ensures [C02+C01.nonce.counter] 0 <= result[7] && result[7] < 256 && 0 <= result[8] && result[8] < 256 && 0 <= result[9] && result[9] < 256 && 0 <= result[10] && result[10] < 256
 //@        && 16777216 * result[7] + 65536 * result[8] + 256 * result[9] + result[10] == num
-//@   ensures [C01.nonce.last] result[11] == (last ? 1 : 0)
+//@   ensures [C02+C01.nonce.last] result[11] == (last ? 1 : 0)
 
 // C01 (c) README: "mac-key = HKDF-SHA-256(ikm = file key, salt = empty, info = "header")",
 // "payload-key = HKDF-SHA-256(ikm = file key, salt = nonce prefix, info = "payload")" -- as data-flow facts over the
 // uninterpreted hkdfbyte (see /verif/libspec/encv1_libs.spec); byte sequences are identified by their codes bseq/sseq.
 //@ func (fileKey).deriveKey
-//@   tags C01 C07 C08
+//@   tags C01 C02 C07 C08
 //@   requires 0 <= size && size <= 8160
 //@   modifies nothing
 //@   ensures [C01.hkdf.ok] result1 == nil && len(result) == size && fresh(result)
+// HKDF-SHA-256: the hash constructor handed to hkdf.New is crypto/sha256.New
+//@   at before call New#0 assert [C01.hkdf.sha256] isfunc(arg0, "crypto/sha256.New")
 //@   ensures [C01.hkdf.bytes] forall i :: 0 <= i && i < size ==> result[i] == hkdfbyte(bseq(region(k.fileKey), k.fileKey.off, len(k.fileKey)), bseq(region(salt), salt.off, len(salt)), bseq(region(info), info.off, len(info)), i)
 
 //@ func importFileKey
-//@   tags C01 C07 C08
+//@   tags C01 C02 C07 C08
 //@   modifies nothing
 //@   ensures [C01.fk.fields] err == nil && fk.fileKey == fileKey && fk.noncePrefix == noncePrefix && fk.cipher == cipher
 //@   ensures [C01.fk.lens] len(fk.headerKey) == 32 && len(fk.payloadKey) == 32 && fresh(fk.headerKey) && fresh(fk.payloadKey)
@@ -129,17 +141,23 @@ package v1
 
 // C01 (c) "Cipher indicates the cipher used": AES-GCM for "AES-GCM" (id 1), ChaCha20-Poly1305 for id 2, keyed with payloadKey.
 //@ func (fileKey).getCipher
-//@   tags C01 C07 C08
+//@   tags C01 C02 C07 C08
 //@   modifies nothing
 //@   ensures [C01.cipher.ok] (len(k.payloadKey) == 32 && (k.cipher == "AES-GCM" || k.cipher == "CHACHA20-POLY1305")) ==> err == nil
 //@   ensures [C01.cipher.unsupported] !(k.cipher == "AES-GCM" || k.cipher == "CHACHA20-POLY1305") ==> (err != nil && aead == nil)
-//@   ensures [C01.cipher.shape] err == nil ==> (aead != nil && aead.overhead == 16 && aead.noncesize == 12)
+//@   ensures [C01.cipher.shape] err == nil ==> (aead != nil && aead.overhead == 16 && aead.noncesize == 12 && aead.exactoverhead)
+// "payload-key" is the AEAD key: the cipher object works with exactly k.payloadKey
+//@   ensures [C01.cipher.key] err == nil ==> aead.akey == k.payloadKey
+// (it is one of the two standard-library / x/crypto constructions, not kit's own AES-CBC-HMAC AEAD, whose Seal / Open have preconditions)
+//@   ensures err == nil ==> !typeis(aead, "*github.com/dapr/kit/crypto/aescbcaead.aesCBCAEAD")
+// README "cph": 0x01 = AES-GCM, 0x02 = ChaCha20-Poly1305: the construction is the one the manifest's cipher id names
+//@   ensures [C01.cipher.alg] err == nil ==> aead.aeadalg == cphID(k.cipher)
 //@   ensures err != nil ==> aead == nil
 
 // C01 (d) README Header/MAC: "message = first 2 lines of the header, including the trailing newline character":
 // "dapr.io/enc/v1" LF manifest LF.
 //@ func (fileKey).headerMessage
-//@   tags C01 C07 C08
+//@   tags C01 C02 C07 C08
 //@   modifies nothing
 //@   ensures [C01.hmsg.len] len(result) == 14 + 1 + len(manifest) + 1 && fresh(result)
 //@   ensures [C01.hmsg.scheme] forall i :: 0 <= i && i < 14 ==> result[i] == SchemeName[i]
@@ -151,17 +169,23 @@ package v1
 // exactly the bytes of k.headerKey that has absorbed exactly msg (ghost hh: the hash object; hash.Hash model of
 // /verif/libspec/hmac_binary.spec).
 //@ func (fileKey).computeHeaderSignature
-//@   tags C01 C07 C08
+//@   tags C01 C02 C07 C08
 //@   ghost hh iface
 //@   modifies nothing
 //@   ensures [C01.mac.ok] result1 == nil && fresh(result) && len(result) > 0
 //@   at call New#0 ghost hh = res0
+// HMAC-SHA-256: the hash constructor handed to hmac.New is crypto/sha256.New (32-byte MAC, 44 base64 characters in the header)
+//@   at before call New#0 assert [C01.mac.sha256] isfunc(arg0, "crypto/sha256.New")
 //@   at return assert [C01.mac.key] hh.hkeylen == len(k.headerKey) && (forall j :: 0 <= j && j < len(k.headerKey) ==> hh.hkey[j] == k.headerKey[j])
 //@   at return assert [C01.mac.msg] hh.wpos == len(msg) && (forall j :: 0 <= j && j < len(msg) ==> hh.wlog[j] == msg[j])
-//@   at return assert [C01.mac.digest] len(result) == hh.hsize && (forall j :: 0 <= j && j < hh.hsize ==> result[j] == digestbyte(hh.hkey, hh.hkeylen, hh.wlog, hh.wpos, j))
+//@   at return assert [C01.mac.digest] len(result) == hh.hsize && isfunc(hh.halg, "crypto/sha256.New") && (forall j :: 0 <= j && j < hh.hsize ==> result[j] == digestbyte(hh.halg, hh.hkey, hh.hkeylen, hh.wlog, hh.wpos, j))
+//@   ensures [C01.mac.len] len(result) == 32
 
 // README Header: three LF-terminated lines: scheme name, manifest, base64 (RFC 4648 section 4, padded) of the MAC; the MAC is
-// computed over the first two lines including their trailing LF. The header must fit one segment (64 KiB).
+// computed over the first two lines including their trailing LF. The header must fit one segment (64 KiB): that limit is NOT in the
+// README (audit C01 D3, format-level observation) -- it is what Decrypt's header reader (readHeader, one pooled buffer) can take, so a
+// header Encrypt emits must respect it ([C01.header.size], needed for the round trip), and nothing smaller may be refused
+// ([C01.header.accept], needed for [C01.enc.total]).
 // mac below is the value returned by the single call of computeHeaderSignature, whose argument is asserted to be the
 // value returned by the single call of headerMessage(manifest).
 //@ func (fileKey).SignHeader
@@ -180,6 +204,8 @@ package v1
 //@   ensures [C01.header.lf3] result1 == nil ==> result[len(result) - 1] == '\n'
 //@   ensures [C01.header.accept] result1 == nil <==> 16 + len(manifest) + (maclen + 2) / 3 * 4 + 1 <= 65536
 //@   ensures [C01.header.len] result1 == nil ==> len(result) == 16 + len(manifest) + (maclen + 2) / 3 * 4 + 1
+// HMAC-SHA-256 is 32 bytes: the third line is 44 base64 characters (the last one the '=' padding), the header 61 bytes plus the manifest
+//@   ensures [C01.header.len44] result1 == nil ==> (maclen == 32 && len(result) == len(manifest) + 61)
 //@   ensures [C01.header.line3] result1 == nil ==> (forall i :: 0 <= i && i < (maclen + 2) / 3 * 4 ==> result[16 + len(manifest) + i] == b64char(mac, macoff, maclen, i))
 //@   at before call headerMessage#0 assert [C01.header.msgarg] arg1 == manifest
 //@   at before call computeHeaderSignature#0 assert [C01.header.macmsg] arg1 == call_headerMessage_0_result
@@ -206,6 +232,9 @@ package v1
 // Type of both EncryptSegment and DecryptSegment as seen by processSegments: the segment is processed in place
 // (data's own backing array up to its capacity is scratch), output goes to out only, nothing else is written: in
 // particular data is not retained anywhere (C08: the pooled buffer does not escape), no package-level state is written.
+// Which functions are passed is checked where they are passed ([C02.dec.consumer], [C01.enc.producer]: isfunc / bound). That their
+// contracts refine this one is NOT machine-checked (the engine has no refinement obligation for `functype ... skip`); by inspection:
+// both require only out != nil (weaker than below), have exactly the frame below, and this contract promises no postcondition.
 //@ func functype github.com/dapr/kit/schemes/enc/v1.processSegmentFn
 //@   skip
 //@   requires out != nil && len(data) > 0
@@ -222,6 +251,8 @@ package v1
 //@   ensures [C01.seg.empty] len(data) == 0 ==> (result != nil && out.wpos == old(out.wpos))
 //@   ensures [C01.seg.written] result == nil ==> out.wpos == old(out.wpos) + len(data) + SegmentOverhead
 //@   at before call nonceForSegment#0 assert [C01.seg.noncearg] arg1 == num && arg2 == last
+// ... by the AEAD getCipher built for this key (the manifest's cipher, keyed with the payload key: [C01.cipher.alg], [C01.cipher.key])
+//@   at before call Seal#0 assert [C01.seg.cipher] arg0 == call_getCipher_0_aead
 //@   at before call Seal#0 assert [C01.seg.sealargs] arg1.base == old(data).base && arg1.off == old(data).off && len(arg1) == 0
 //@        && arg2.base == call_nonceForSegment_0_result.base && arg2.off == call_nonceForSegment_0_result.off && len(arg2) == 12
 //@        && arg3.base == old(data).base && arg3.off == old(data).off && len(arg3) == len(old(data)) && len(arg4) == 0
@@ -243,8 +274,9 @@ package v1
 //@   ensures [C02.seg.empty] len(data) == 0 ==> (result != nil && out.wpos == old(out.wpos))
 //@   ensures [C02.seg.written] result == nil ==> (len(data) >= SegmentOverhead && out.wpos == old(out.wpos) + len(data) - SegmentOverhead)
 //@   ensures [C02.seg.log] forall j :: 0 <= j && j < old(out.wpos) ==> out.wlog[j] == old(out.wlog[j])
-//@   at before call nonceForSegment#0 assert [C01.dseg.noncearg] arg1 == num && arg2 == last
-//@   at before call Open#0 assert [C01.dseg.openargs] arg1.base == old(data).base && arg1.off == old(data).off && len(arg1) == 0
+//@   at before call nonceForSegment#0 assert [C02+C01.dseg.noncearg] arg1 == num && arg2 == last
+//@   at before call Open#0 assert [C02+C01.dseg.cipher] arg0 == call_getCipher_0_aead
+//@   at before call Open#0 assert [C02+C01.dseg.openargs] arg1.base == old(data).base && arg1.off == old(data).off && len(arg1) == 0
 //@        && arg2.base == call_nonceForSegment_0_result.base && arg2.off == call_nonceForSegment_0_result.off && len(arg2) == 12
 //@        && arg3.base == old(data).base && arg3.off == old(data).off && len(arg3) == len(old(data)) && len(arg4) == 0
 //@   at call getCipher#0 ghost opened = false
@@ -270,6 +302,8 @@ package v1
 // the file key is handed to the caller's WrapKeyFn: it must not carry live state (the nonce prefix) in its spare capacity,
 // where an appending callback would overwrite it after the payload key has been derived
 //@   ensures [C01.newfk.nospare] result1 == nil ==> cap(result.fileKey) == len(result.fileKey)
+// model well-formedness of the random source (it may be the very reader the caller encrypts): it only moves forward, within its content
+//@   ensures [C01.newfk.randpos] old(rand.Reader.pos) <= rand.Reader.pos && rand.Reader.pos <= rand.Reader.total
 
 //@ func (fileKey).GetFileKey
 //@   tags C01 C07 C08
@@ -289,7 +323,8 @@ package v1
 //@   requires w != nil
 //@   modifies w.pn, w.cstate, w.cerr
 //@   ensures [C01.wocp.ok] result ==> (w.pn == old(w.pn) + len(b) && w.cstate == old(w.cstate) && w.cerr == old(w.cerr))
-//@   ensures [C02.wocp.closed] (!result && old(w.cstate) == 0) ==> (w.cstate == 2 && w.cerr != nil)
+// (io.EOF is what the reader of a pipe takes for a clean end: an error close must carry something else)
+//@   ensures [C02.wocp.closed] (!result && old(w.cstate) == 0) ==> (w.cstate == 2 && w.cerr != nil && w.cerr != io.EOF)
 //@   ensures [C02.wocp.sticky] old(w.cstate) != 0 ==> (!result && w.cstate == old(w.cstate) && w.cerr == old(w.cerr))
 
 // BufPool.New: the New half of the pool's element invariant (every element is a non-nil *[]byte of SegmentSize+SegmentOverhead+1
@@ -325,8 +360,9 @@ package v1
 //   [C01.wrap]     the 32-bit segment counter never wraps
 //   [C02.final]    clean close only after a segment flagged last was accepted  -- KNOWN FINDING: fails for the empty stream
 //   [C02.final.only] ... and the empty stream (no byte delivered, no segment processed) is the only other way to a clean close
-//   [C02.srcerr]   a non-EOF error of the source closes the pipe with exactly that error
-//   [C02.closed]   every return leaves the pipe closed; every close but the clean one is CloseWithError(non-nil)
+//   [C02.srcerr]   the first error of the source other than the io.EOF sentinel, at whatever offset, closes the pipe with exactly that error
+//   [C02.closed]   every return leaves the pipe closed; every close but the clean one is CloseWithError(e), e neither nil nor io.EOF
+//                  (for the reader of an io.Pipe CloseWithError(io.EOF) is a clean end)
 //   [C08.*]        the pooled buffer is owned (not released) whenever it is read, written or handed to processFn, and is
 //                  handed back exactly at return; no package-level state is written (frame)
 //@ func processSegments
@@ -340,6 +376,7 @@ package v1
 //@   ghost clast [int]bool
 //@   ghost srcerr iface
 //@   ghost iseof bool
+//@   ghost ferr iface
 //@   requires in != nil && out != nil && processFn != nil && segmentSize >= 1 && segmentSize <= 65552
 //@   requires 0 <= in.pos && in.pos <= in.total && out.cstate == 0
 //@   requires [C08.released.alloc] forall b :: released[b] ==> allocated(b)
@@ -351,8 +388,11 @@ package v1
 //@   at call Get#0 ghost base = in.pos
 //@   at call Get#0 ghost srcerr = err
 //@   at call Get#0 ghost iseof = false
+//@   at call Get#0 ghost ferr = nil
 //@   at before call Read#0 assert [C08.own.read] !released[(*buf).base]
 //@   at call Read#0 ghost srcerr = res1
+// ferr: the first error of the source other than the io.EOF sentinel, at whatever offset it occurred (never overwritten by later reads)
+//@   at call Read#0 ghost ferr = ((ferr == nil && res1 != io.EOF) ? res1 : ferr)
 // end of input is the io.EOF sentinel itself (io.Reader: "callers will test for EOF using =="); any other error of the
 // source, including one that wraps io.EOF, has to surface on the output stream
 //@   at call Read#0 ghost iseof = (res1 == io.EOF)
@@ -368,8 +408,8 @@ package v1
 //@   at call processSegmentFn#0 ghost nacc = (res0 == nil ? nacc + 1 : nacc)
 //@   at call processSegmentFn#0 ghost base = (res0 == nil ? base + n : base)
 //@   at return assert [C08.pool.returned] released[(*buf).base]
-//@   ensures [C02.closed] out.cstate == 1 || (out.cstate == 2 && out.cerr != nil)
-//@   ensures [C02.srcerr] (srcerr != nil && !iseof) ==> (out.cstate == 2 && out.cerr == srcerr)
+//@   ensures [C02.closed] out.cstate == 1 || (out.cstate == 2 && out.cerr != nil && out.cerr != io.EOF)
+//@   ensures [C02.srcerr] (ferr != nil && ferr != io.EOF) ==> (out.cstate == 2 && out.cerr == ferr)
 //@   ensures [C02.final] out.cstate == 1 ==> (nacc > 0 && clast[nacc - 1])
 //@   ensures [C02.final.only] out.cstate == 1 ==> ((nacc > 0 && clast[nacc - 1]) || (nacc == 0 && ncall == 0 && iseof && in.pos == old(in.pos)))
 //@   ensures [C02.accepted] 0 <= nacc && nacc <= ncall && ncall <= nacc + 1 && (out.cstate == 1 ==> ncall == nacc)
@@ -388,7 +428,7 @@ package v1
 //@   replay val rn = call_Read_0_n
 //@   replay val reof = call_Read_0_err == io.EOF
 //@   replay val rnil = call_Read_0_err == nil
-//@   loop 0 invariant err == nil && out.cstate == 0 && old(in.pos) <= base && in.pos <= in.total
+//@   loop 0 invariant err == nil && out.cstate == 0 && old(in.pos) <= base && in.pos <= in.total && ferr == nil
 //@   loop 0 invariant buf != nil && len(*buf) == 65553 && fresh(*buf) && !released[(*buf).base]
 //@   loop 0 invariant 0 <= nacc && ncall == nacc && ncall <= 4294967296
 //@   loop 0 invariant [C02.nowrap] !done ==> (segment == ncall && ncall <= 4294967295)
@@ -403,6 +443,7 @@ package v1
 //@   loop 1 invariant 0 <= n && n <= segmentSize + 1 && !hasCarryover && in.pos == base + n && in.pos <= in.total && out.cstate == 0
 //@   loop 1 invariant buf != nil && len(*buf) == 65553 && fresh(*buf) && !released[(*buf).base]
 //@   loop 1 invariant forall k :: 0 <= k && k < n ==> (*buf)[k] == in.data[base + k]
+//@   loop 1 invariant ferr != io.EOF && (ferr != nil ==> err == ferr) && ((err != nil && err != io.EOF) ==> ferr == err)
 //@   loop 1 invariant (iseof <==> srcerr == io.EOF) && (err != nil ==> err == srcerr) && (err == nil ==> (srcerr == nil || iseof)) && (srcerr == io.EOF ==> in.pos == in.total)
 
 // The deferred func(){ BufPool.Put(buf) } of readHeader.
@@ -421,21 +462,38 @@ package v1
 // immediately after the 3rd newline. src = the reader *in at entry, an abstract io.Reader (any chunking).
 //   [C01.hdr.*]  err == nil ==> the source content at its entry position is  "dapr.io/enc/v1" LF manifest LF mac LF  with non-empty
 //                manifest and mac free of LF, and manifest / mac hold exactly those bytes
-//   [C02.srcerr] a non-EOF error of the source is never swallowed  -- DEFECT: the loop invariant carrying it (a header is never
-//                completed by a read that also reported a non-EOF error) is not preserved by the iteration that reads the last
-//                header bytes together with such an error
-//   [C08.own]    the results are not memory that was handed back to BufPool  -- DEFECT: fails at the final return
+//   [C01.hdr.rest.*] / [C02.hdr.rest]  what *in still has to deliver afterwards is exactly the source content behind the 3rd LF
+//   [C02.srcerr] a non-EOF error of the source is never swallowed (repaired: the read that completes the header may carry one)
+//   [C08.own], [C08.own.rest]  neither the results nor the bytes pushed back into *in are memory that was handed back to BufPool
+//                (repaired: manifest / mac are returned as copies)
+// hdrShape(d, p, a, b): the content d from position p on is a well-formed header whose manifest line has a and whose MAC line has b
+// bytes: "dapr.io/enc/v1" LF, a > 0 bytes without LF, LF, b > 0 bytes without LF, LF -- and it fits one segment (the reader's limit)
+//@ pure func hdrShape(d [int]int, p int, a int, b int) bool = (forall x :: p <= x && x < p + 14 ==> d[x] == SchemeName[x - p]) && d[p + 14] == '\n'
+//@        && a > 0 && (forall x :: p + 15 <= x && x < p + 15 + a ==> d[x] != '\n') && d[p + 15 + a] == '\n'
+//@        && b > 0 && (forall x :: p + 16 + a <= x && x < p + 16 + a + b ==> d[x] != '\n') && d[p + 16 + a + b] == '\n' && 17 + a + b <= 65536
 //@ func readHeader
 //@   tags C01 C02 C07 C08
+//@   ghost ha int
+//@   ghost hb int
 //@   ghost srcerr iface
+//@   ghost ferr iface
 //@   requires in != nil && *in != nil && 0 <= (*in).pos && (*in).pos <= (*in).total
 //@   requires [C08.released.alloc] forall b :: released[b] ==> allocated(b)
 //@   modifies *in, pos, released
 //@   ensures [C08.released.alloc] forall b :: released[b] ==> allocated(b)
 //@   at call Get#0 assume typeis(res0, "*[]byte") && deref(res0, "[]byte") != nil && len(deref(res0, "[]byte")) == 65553
 //@   at call Get#0 ghost srcerr = err
+//@   at call Get#0 ghost ferr = nil
 //@   at before call Read#0 assert [C08.own.read] !released[(*buf).base]
 //@   at call Read#0 ghost srcerr = res1
+// ferr: the first error of the source other than the io.EOF sentinel (never overwritten by later reads)
+//@   at call Read#0 ghost ferr = ((ferr == nil && res1 != io.EOF) ? res1 : ferr)
+// C01 "payload begins immediately after the 3rd newline" and C02 (S1/S2 "truncated ... a shortened message never ends in a clean EOF"):
+// no byte of the document behind the header is withheld from (or added to) what the segment loop will read
+//@   ensures [C01+C02.hdr.rest] err == nil ==> (*in).total - (*in).pos == old((*in).total) - old((*in).pos) - (17 + len(manifest) + len(mac))
+// "Decrypt accepts documents produced by such an implementation": whatever the chunking, a source whose content starts with a
+// well-formed header (ha, hb: arbitrary line lengths) and that delivers it without a non-EOF error is accepted
+//@   ensures [C01.hdr.accept] (hdrShape(old(*in).data, old((*in).pos), ha, hb) && old((*in).pos) + 17 + ha + hb <= old((*in).total) && ferr == nil) ==> err == nil
 //@   ensures [C01.hdr.fail] err != nil ==> (manifest == nil && mac == nil)
 //@   ensures [C01.hdr.nonempty] err == nil ==> (len(manifest) > 0 && len(mac) > 0)
 //@   ensures [C01.hdr.line1] err == nil ==> ((forall j :: 0 <= j && j < 14 ==> old(*in).data[old((*in).pos) + j] == SchemeName[j]) && old(*in).data[old((*in).pos) + 14] == '\n')
@@ -447,14 +505,25 @@ package v1
 //@   ensures [C01.hdr.line3.lf] err == nil ==> old(*in).data[old((*in).pos) + 16 + len(manifest) + len(mac)] == '\n'
 //@   ensures [C01.hdr.rest.same] (err == nil && *in == old(*in)) ==> (*in).pos == old((*in).pos) + 17 + len(manifest) + len(mac)
 //@   ensures [C01.hdr.rest.valid] err == nil ==> (*in != nil && 0 <= (*in).pos && (*in).pos <= (*in).total)
-//@   ensures [C02.srcerr] (srcerr != nil && srcerr != io.EOF) ==> err != nil
+// "the binary payload begins immediately after the 3rd newline", for every chunking of the source: what the reader left in *in
+// still has to deliver is exactly what the source had behind the header -- same length, same bytes, nothing dropped, repeated or
+// reordered (whether or not bytes had to be pushed back, whether or not the source reported EOF together with its last bytes)
+//@   ensures [C01.hdr.rest.data] err == nil ==> (forall k :: 0 <= k && k < (*in).total - (*in).pos ==> (*in).data[(*in).pos + k] == old(*in).data[old((*in).pos) + 17 + len(manifest) + len(mac) + k])
+//@   at call MultiReader#0 assert [C01.hdr.push.len] res0.total == old((*in).total) - old((*in).pos) - lastNewline
+//@   at call MultiReader#0 assert [C01.hdr.push.front] forall k :: 0 <= k && k < n - lastNewline ==> res0.data[k] == old(*in).data[old((*in).pos) + lastNewline + k]
+//@   at call MultiReader#0 assert [C01.hdr.push.back] forall k :: n - lastNewline <= k && k < res0.total ==> res0.data[k] == old(*in).data[old((*in).pos) + lastNewline + k]
+//@   ensures [C02.srcerr] (ferr != nil && ferr != io.EOF) ==> err != nil
 //@   ensures [C08.own] err == nil ==> (!released[manifest.base] && !released[mac.base])
+// ... nor is memory the new *in keeps and reads from later (the pushed-back bytes): a pooled buffer handed back here may be in
+// another stream's hands by the time the segment loop reads them
+//@   ensures [C08.own.rest] err == nil ==> (forall x :: ((*in).held[x] && !old(*in).held[x]) ==> !released[x])
 //@   replay template encv1header
 //@   replay val rn = call_Read_0_n
 //@   replay val reof = call_Read_0_err == io.EOF
 //@   replay val rnil = call_Read_0_err == nil
 //@   loop 0 invariant 0 <= n && n <= 65536 && 0 <= newlines && newlines <= 3 && 0 <= lastNewline && lastNewline <= n
 //@   loop 0 invariant *in == old(*in) && (*in).pos == old((*in).pos) + n && (*in).pos <= (*in).total && err == srcerr
+//@   loop 0 invariant ferr != io.EOF && (ferr != nil ==> ferr == err) && ((err != nil && err != io.EOF) ==> ferr == err)
 //@   loop 0 invariant buf != nil && len(*buf) == 65553 && fresh(*buf) && !released[(*buf).base]
 //@   loop 0 invariant forall k :: 0 <= k && k < n ==> (*buf)[k] == (*in).data[old((*in).pos) + k]
 //@   loop 0 invariant newlines == 0 ==> (lastNewline == 0 && len(manifest) == 0 && len(mac) == 0)
@@ -466,6 +535,19 @@ package v1
 //@   loop 0 invariant newlines == 3 ==> (len(mac) > 0 && mac.base == (*buf).base && mac.off == (*buf).off + 16 + len(manifest) && lastNewline == 17 + len(manifest) + len(mac)
 //@        && (*buf)[16 + len(manifest) + len(mac)] == '\n' && (forall j :: 0 <= j && j < len(mac) ==> (*buf)[16 + len(manifest) + j] != '\n'))
 //@   loop 0 invariant newlines < 3 ==> (forall j :: lastNewline <= j && j < n ==> (*buf)[j] != '\n')
+// for [C01.hdr.accept]: under the hypothesis that the source content is a well-formed header with line lengths ha, hb the line feeds
+// found so far are the header's (the K-conjuncts only name the buffer positions of the three line feeds for the solver)
+// the same no-line-feed facts over the (immutable) source content, by absolute position: what [C01.hdr.line2.nolf] / [C01.hdr.line3.nolf] are
+// proved from, without reasoning about the buffer across the later allocations
+//@   loop 0 invariant newlines < 3 ==> (forall x :: old((*in).pos) + lastNewline <= x && x < old((*in).pos) + n ==> old(*in).data[x] != '\n')
+//@   loop 0 invariant newlines >= 2 ==> (forall x :: old((*in).pos) + 15 <= x && x < old((*in).pos) + 15 + len(manifest) ==> old(*in).data[x] != '\n')
+//@   loop 0 invariant newlines == 3 ==> (forall x :: old((*in).pos) + 16 + len(manifest) <= x && x < old((*in).pos) + 16 + len(manifest) + len(mac) ==> old(*in).data[x] != '\n')
+//@   loop 0 invariant err == io.EOF ==> (*in).pos == (*in).total
+//@   loop 0 invariant (hdrShape(old(*in).data, old((*in).pos), ha, hb) && 14 < n) ==> (*buf)[14] == '\n'
+//@   loop 0 invariant (hdrShape(old(*in).data, old((*in).pos), ha, hb) && 15 + ha < n) ==> (*buf)[15 + ha] == '\n'
+//@   loop 0 invariant (hdrShape(old(*in).data, old((*in).pos), ha, hb) && 16 + ha + hb < n) ==> (*buf)[16 + ha + hb] == '\n'
+//@   loop 0 invariant (hdrShape(old(*in).data, old((*in).pos), ha, hb) && newlines >= 2) ==> len(manifest) == ha
+//@   loop 0 invariant (hdrShape(old(*in).data, old((*in).pos), ha, hb) && newlines == 3) ==> len(mac) == hb
 //@   loop 1 invariant n <= i && i <= n + nn && n + nn <= 65536 && 0 <= newlines && newlines <= 3 && 0 <= lastNewline && lastNewline <= i
 //@   loop 1 invariant buf != nil && len(*buf) == 65553 && fresh(*buf) && !released[(*buf).base]
 //@   loop 1 invariant forall k :: 0 <= k && k < n + nn ==> (*buf)[k] == (*in).data[old((*in).pos) + k]
@@ -478,15 +560,28 @@ package v1
 //@   loop 1 invariant newlines == 3 ==> (len(mac) > 0 && mac.base == (*buf).base && mac.off == (*buf).off + 16 + len(manifest) && lastNewline == 17 + len(manifest) + len(mac)
 //@        && (*buf)[16 + len(manifest) + len(mac)] == '\n' && (forall j :: 0 <= j && j < len(mac) ==> (*buf)[16 + len(manifest) + j] != '\n'))
 //@   loop 1 invariant newlines < 3 ==> (forall j :: lastNewline <= j && j < i ==> (*buf)[j] != '\n')
+// the same no-line-feed facts over the (immutable) source content, by absolute position: what [C01.hdr.line2.nolf] / [C01.hdr.line3.nolf] are
+// proved from, without reasoning about the buffer across the later allocations
+//@   loop 1 invariant newlines < 3 ==> (forall x :: old((*in).pos) + lastNewline <= x && x < old((*in).pos) + i ==> old(*in).data[x] != '\n')
+//@   loop 1 invariant newlines >= 2 ==> (forall x :: old((*in).pos) + 15 <= x && x < old((*in).pos) + 15 + len(manifest) ==> old(*in).data[x] != '\n')
+//@   loop 1 invariant newlines == 3 ==> (forall x :: old((*in).pos) + 16 + len(manifest) <= x && x < old((*in).pos) + 16 + len(manifest) + len(mac) ==> old(*in).data[x] != '\n')
+//@   loop 1 invariant (hdrShape(old(*in).data, old((*in).pos), ha, hb) && 14 < n + nn) ==> (*buf)[14] == '\n'
+//@   loop 1 invariant (hdrShape(old(*in).data, old((*in).pos), ha, hb) && 15 + ha < n + nn) ==> (*buf)[15 + ha] == '\n'
+//@   loop 1 invariant (hdrShape(old(*in).data, old((*in).pos), ha, hb) && 16 + ha + hb < n + nn) ==> (*buf)[16 + ha + hb] == '\n'
+//@   loop 1 invariant (hdrShape(old(*in).data, old((*in).pos), ha, hb) && newlines >= 2) ==> len(manifest) == ha
+//@   loop 1 invariant (hdrShape(old(*in).data, old((*in).pos), ha, hb) && newlines == 3) ==> len(mac) == hb
 
 // ---- Encrypt / Decrypt up to the go statement ------------------------------------------------------------------
-// The caller-supplied key (un)wrapping callbacks: assumed to leave all memory reachable by Encrypt / Decrypt alone.
+// The caller-supplied key (un)wrapping callbacks (user code, assumed): they may do what ordinary Go code may do with a []byte
+// argument it was handed -- overwrite it (e.g. wipe the plaintext key after wrapping) and append into its spare capacity -- but touch
+// no other memory reachable by Encrypt / Decrypt. Encrypt / Decrypt are verified against that: nothing they use afterwards may live
+// in the argument or behind it ([C01.newfk.nospare]; both derived keys are computed before WrapKeyFn runs).
 //@ func functype github.com/dapr/kit/schemes/enc/v1.WrapKeyFn
 //@   skip
-//@   modifies nothing
+//@   modifies plaintextKey[0:cap(plaintextKey)]
 //@ func functype github.com/dapr/kit/schemes/enc/v1.UnwrapKeyFn
 //@   skip
-//@   modifies nothing
+//@   modifies wrappedKey[0:cap(wrappedKey)]
 
 // C01 (f) README Manifest.KeyName / EncryptOptions: the manifest's key name is "" with OmitKeyName, else DecryptionKeyName if
 // set, else KeyName; the file key handed to WrapKeyFn is the fresh random key; the manifest carries the validated algorithm,
@@ -495,10 +590,29 @@ package v1
 //@   tags C01 C07 C08
 //@   requires rand.Reader != nil
 //@   requires in == nil || (0 <= in.pos && in.pos <= in.total)
+//@   requires [C08.released.alloc] forall b :: released[b] ==> allocated(b)
 //@   modifies rand.Reader.pos
 //@   ensures [C01.enc.result] (result1 == nil ==> result != nil) && (result1 != nil ==> result == nil)
 //@   ensures [C01.enc.options] (in == nil || opts.WrapKeyFn == nil || opts.KeyName == "" || opts.Algorithm == "" || !kaCanon(kaResolve(opts.Algorithm))) ==> result1 != nil
+// "for every cipher, key-wrapping algorithm and key-name option": with valid options (the key name that goes into the manifest being
+// valid UTF-8, see [C01.enc.keyname.utf8]) Encrypt fails only if the random source, the caller's WrapKeyFn, the JSON encoder or
+// SignHeader (header larger than one segment) failed -- no option combination is refused
+//@   ghost fkerr iface
+//@   ghost wraperr iface
+//@   ghost jsonerr iface
+//@   ghost signerr iface
+//@   at call newFileKey#0 ghost fkerr = res1
+//@   at call WrapKeyFn#0 ghost wraperr = res2
+//@   at call Marshal#0 ghost jsonerr = res1
+//@   at call SignHeader#0 ghost signerr = res1
+//@   at return assert [C01.enc.total] (in != nil && opts.WrapKeyFn != nil && opts.KeyName != "" && kaCanon(kaResolve(opts.Algorithm))
+//@        && (opts.Cipher == nil || cphID(*opts.Cipher) != 0) && (opts.OmitKeyName || validUTF8(opts.DecryptionKeyName != "" ? opts.DecryptionKeyName : opts.KeyName))
+//@        && fkerr == nil && wraperr == nil && jsonerr == nil && signerr == nil) ==> result1 == nil
 //@   at before call WrapKeyFn#0 assert [C01.enc.wrapargs] arg0 == call_newFileKey_0_result.fileKey && len(arg0) == 32 && arg1 == kaResolve(opts.Algorithm) && kaCanon(arg1) && arg2 == opts.KeyName && len(arg3) == 0
+// "all KeyName/DecryptionKeyName/OmitKeyName combinations" round-trip: the manifest is JSON, which cannot carry a string that is not
+// valid UTF-8 (json.Marshal silently replaces the offending bytes by U+FFFD), so Decrypt would hand another name to UnwrapKeyFn:
+// such a name must be refused by Encrypt (was a defect, audit C01 D2; repaired: utf8.ValidString check before json.Marshal)
+//@   ensures [C01.enc.keyname.utf8] (!opts.OmitKeyName && !validUTF8(opts.DecryptionKeyName != "" ? opts.DecryptionKeyName : opts.KeyName)) ==> result1 != nil
 //@   at before call Marshal#0 assert [C01.enc.keyname] deref(arg0, "github.com/dapr/kit/schemes/enc/v1.Manifest").KeyName == (opts.OmitKeyName ? "" : (opts.DecryptionKeyName != "" ? opts.DecryptionKeyName : opts.KeyName))
 //@   at before call Marshal#0 assert [C01.enc.manifest] deref(arg0, "github.com/dapr/kit/schemes/enc/v1.Manifest").KeyWrappingAlgorithm == kaResolve(opts.Algorithm)
 //@        && deref(arg0, "github.com/dapr/kit/schemes/enc/v1.Manifest").WFK == call_WrapKeyFn_0_wrappedKey
@@ -506,6 +620,12 @@ package v1
 //@        && deref(arg0, "github.com/dapr/kit/schemes/enc/v1.Manifest").NoncePrefix == call_newFileKey_0_result.noncePrefix && len(call_newFileKey_0_result.noncePrefix) == 7
 //@   at before call SignHeader#0 assert [C01.enc.signarg] arg0 == call_newFileKey_0_result && arg1 == call_Marshal_0_result
 //@   at before go#0 assert [C01.enc.spawn] call_SignHeader_0_result1 == nil && header == call_SignHeader_0_result && outW != nil && outW.cstate == 0 && in != nil
+// the producer encrypts under the key whose wrapping is in the manifest and that signed the header, reading the caller's source
+//@   at before go#0 assert [C01.enc.spawn.key] fk == call_newFileKey_0_result && in == old(in) && outW == call_Pipe_0_result1
+// the stream handed to the caller is the read half of the pipe the producer writes to
+//@   ghost pr ref
+//@   at call Pipe#0 ghost pr = res0
+//@   at return assert [C01.enc.stream] result1 == nil ==> (typeis(result, "*io.PipeReader") && result == box(pr, "*io.PipeReader"))
 
 // The producer goroutine of Encrypt: header first, then the segment loop with S = SegmentSize = 65536 and EncryptSegment.
 //@ func Encrypt$1
@@ -514,8 +634,14 @@ package v1
 //@   requires [C08.released.alloc] forall b :: released[b] ==> allocated(b)
 //@   ensures [C08.released.alloc] forall b :: released[b] ==> allocated(b)
 //@   modifies in.pos, outW.pn, outW.cstate, outW.cerr, wlog, wpos, released
-//@   ensures [C02.enc.closed] outW.cstate == 1 || (outW.cstate == 2 && outW.cerr != nil)
+//@   ensures [C02.enc.closed] outW.cstate == 1 || (outW.cstate == 2 && outW.cerr != nil && outW.cerr != io.EOF)
 //@   at before call processSegments#0 assert [C01.enc.segsize] arg3 == 65536 && arg0 == in && arg1 == outW
+//@   at before call processSegments#0 assert [C01.enc.producer] isfunc(arg2, "(github.com/dapr/kit/schemes/enc/v1.fileKey).EncryptSegment$bound")
+//@        && bound(arg2, 0, "fileKey") == fk
+// "ciphertext = header, then the segments": the signed header, whole and unchanged, is the first thing written to the stream, exactly
+// once, and the segment loop starts on the still-open stream right behind it
+//@   at before call writeOrClosePipe#0 assert [C01.enc.header.args] arg0 == outW && arg1 == header && outW.pn == old(outW.pn)
+//@   at before call processSegments#0 assert [C01.enc.header.first] outW.pn == old(outW.pn) + len(header) && outW.cstate == 0
 
 // C02 (1): the consumer goroutine (processSegments with S = 65552 and DecryptSegment) is started only after
 // VerifyHeaderSignature returned nil for exactly the manifest and MAC lines readHeader returned, under the key imported from the
@@ -535,9 +661,10 @@ package v1
 //@   at before call VerifyHeaderSignature#0 assert [C08.own.use.mac] !released[call_readHeader_0_manifest.base] && !released[call_readHeader_0_mac.base]
 //@   at before call UnwrapKeyFn#0 assert [C01.dec.keyname] arg2 == (opts.KeyName != "" ? opts.KeyName : manifestObj.KeyName) && arg2 != ""
 //@   at before call UnwrapKeyFn#0 assert [C01.dec.unwrapargs] arg0 == manifestObj.WFK && arg1 == manifestObj.KeyWrappingAlgorithm && kaCanon(arg1) && len(arg3) == 0 && len(arg4) == 0
-//@   at before call importFileKey#0 assert [C02.dec.keylen] len(arg0) == 32
-//@        && ((call_UnwrapKeyFn_0_err == nil && len(call_UnwrapKeyFn_0_plaintextKey) == 32) ==> arg0 == call_UnwrapKeyFn_0_plaintextKey)
-//@        && (!(call_UnwrapKeyFn_0_err == nil && len(call_UnwrapKeyFn_0_plaintextKey) == 32) ==> (fresh(arg0) && (forall i :: 0 <= i && i < 32 ==> arg0[i] == 0)))
+// the key the header is verified and the segments are decrypted under is the file key UnwrapKeyFn returned, whenever it returned a
+// proper one (what happens to the MAC check otherwise -- the code runs it under a placeholder for timing reasons -- is not part of
+// any property: such a document is rejected, [C02.dec.unwrapped] / [C02.dec.onlyverified])
+//@   at before call importFileKey#0 assert [C01.dec.keyarg] (call_UnwrapKeyFn_0_err == nil && len(call_UnwrapKeyFn_0_plaintextKey) == 32) ==> arg0 == call_UnwrapKeyFn_0_plaintextKey
 //@   at before call importFileKey#0 assert [C02.dec.importargs] arg1 == manifestObj.NoncePrefix && len(arg1) == 7 && arg2 == manifestObj.Cipher && (arg2 == "AES-GCM" || arg2 == "CHACHA20-POLY1305")
 //@   at before call VerifyHeaderSignature#0 assert [C02.dec.verifyargs] arg0 == call_importFileKey_0_fk && arg1 == call_readHeader_0_manifest && arg2 == call_readHeader_0_mac
 //@   ghost macok bool
@@ -548,4 +675,51 @@ package v1
 //@   replay template encv1unwrap
 //@   replay val uerr = call_UnwrapKeyFn_0_err != nil
 //@   replay val keylen = len(call_UnwrapKeyFn_0_plaintextKey)
+// S1/S3 at the level of Decrypt: a stream is handed out only on the one path on which the header was read without error, its MAC
+// verified under a properly unwrapped 32-byte key and the consumer was started; it is the read half of the consumer's pipe and
+// nothing else (not the raw input, not an empty reader); every other path reports an error and no stream
+//@   ghost spawned bool
+//@   ghost hdrok bool
+//@   ghost keyok bool
+//@   ghost pr ref
+//@   at call readHeader#0 ghost spawned = false
+//@   at call readHeader#0 ghost hdrok = (res2 == nil)
+//@   at call readHeader#0 ghost keyok = false
+//@   at call UnwrapKeyFn#0 ghost keyok = (res1 == nil && len(res0) == 32)
+//@   at call Pipe#0 ghost pr = res0
+//@   at go#0 ghost spawned = true
+//@   at return assert [C02.dec.onlyverified] result1 == nil ==> (spawned && macok && hdrok && keyok)
+//@   at return assert [C02.dec.stream] result1 == nil ==> (typeis(result, "*io.PipeReader") && result == box(pr, "*io.PipeReader"))
+// "Decrypt accepts documents produced by such an implementation": a well-formed header with a valid manifest, a usable key name, a
+// properly unwrapped key and a matching MAC is never refused
+//@   ghost ujerr iface
+//@   ghost valerr iface
+//@   ghost imperr iface
+//@   ghost named bool
+//@   at call Unmarshal#0 ghost ujerr = res0
+//@   at call Validate#0 ghost valerr = res0
+//@   at call Validate#0 ghost named = (opts.KeyName != "" || manifestObj.KeyName != "")
+//@   at call importFileKey#0 ghost imperr = res1
+// (these ghosts are deliberately not initialised: on a path that returns before the call an arbitrary value stands for "would have succeeded")
+//@   ghost hdrerr iface
+//@   ghost uwerr iface
+//@   ghost uwlen int
+//@   ghost macerr iface
+//@   at call readHeader#0 ghost hdrerr = res2
+//@   at call UnwrapKeyFn#0 ghost uwerr = res1
+//@   at call UnwrapKeyFn#0 ghost uwlen = len(res0)
+//@   at call VerifyHeaderSignature#0 ghost macerr = res0
+//@   at return assert [C01.dec.total] (old(in) != nil && opts.UnwrapKeyFn != nil && hdrerr == nil && ujerr == nil && valerr == nil && named && uwerr == nil && uwlen == 32 && imperr == nil && macerr == nil) ==> result1 == nil
+//@   at before go#0 assert [C02.dec.pipe] outW == call_Pipe_0_result1
+// the consumer reads exactly what the source had behind the header readHeader returned (nothing consumed or inserted in between)
+//@   at before go#0 assert [C02.dec.rest] in.total - in.pos == old(in.total) - old(in.pos) - (17 + len(call_readHeader_0_manifest) + len(call_readHeader_0_mac))
+//@   at before go#0 assert [C01.dec.rest] forall k :: 0 <= k && k < in.total - in.pos ==> in.data[in.pos + k] == old(in).data[old(in.pos) + 17 + len(call_readHeader_0_manifest) + len(call_readHeader_0_mac) + k]
+// ... and none of the memory that reader keeps (the bytes readHeader pushed back) is pool memory that was handed back
+//@   at before go#0 assert [C08.own.use.rest] forall x :: (in.held[x] && !old(in).held[x]) ==> !released[x]
 //@   at before go#0 assert [C02.dec.spawn] in != nil && 0 <= in.pos && in.pos <= in.total && outW != nil && outW.cstate == 0
+// what is started: the segment loop over the rest of the source, writing to the pipe whose read half is returned, with the
+// 64 KiB + 16-byte tag segment size and DecryptSegment (README Segments) -- not EncryptSegment, not another size
+//@   at before go#0 assert [C02.dec.consumer] arg0 == in && arg1 == outW && arg3 == SegmentSize + SegmentOverhead && arg3 == 65552
+//@        && isfunc(arg2, "(github.com/dapr/kit/schemes/enc/v1.fileKey).DecryptSegment$bound")
+// ... of the very key object under which the header MAC was just verified (not a second key imported from something else)
+//@   at before go#0 assert [C02.dec.consumer.key] bound(arg2, 0, "fileKey") == call_importFileKey_0_fk
